@@ -82,3 +82,28 @@ Definition same_structs (w w' : wstate) : bool :=
   forallb (fun x => match alookup (fst x) (heaps w') with Some s => bytes_eqb s (snd x) | None => false end) (heaps w)
   && forallb (fun x => match alookup (fst x) (snods w') with
                        | Some s => list_eqb2 entry_eqb s (map (fun e => (e_off e, e_obj e)) (snd x)) | None => false end) (snods w).
+
+(* ---------------------------------------------------------------- the reader (link mode with "reopen") *)
+(* File.Walk: path of a child = path of its group + name (+ "/" when the child is a group) *)
+Definition kind_code (k : kind) : N := match k with KGroup => 0 | KData => 1 | KSoft => 2 end.
+Definition tree_is_group (t : tree) : bool := match t with TNode _ KGroup _ => true | _ => false end.
+Fixpoint flatten (p : bytes) (t : tree) : list (bytes * N * N) :=
+  match t with
+  | TNode id k ch =>
+      (p, kind_code k, id) ::
+      (fix go (l : list (name * tree)) : list (bytes * N * N) :=
+         match l with
+         | [] => []
+         | (n, c1) :: r => flatten (p ++ n ++ (if tree_is_group c1 then [SL] else [])) c1 ++ go r
+         end) ch
+  end.
+Definition walk_eqb (a b : bytes * N * N) : bool :=
+  let '(p1, k1, i1) := a in let '(p2, k2, i2) := b in bytes_eqb p1 p2 && (k1 =? k2) && (i1 =? i2).
+(* g_walk = None: Open failed *)
+Definition read_ok (c : cfg) (ops : list uop) (g_walk : option (list (bytes * N * N))) : bool :=
+  let '(w, _) := run (ustep c) (init c) ops in
+  match read_tree c w, g_walk with
+  | Some t, Some l => list_eqb walk_eqb (flatten [SL] t) l
+  | None, None => true
+  | _, _ => false
+  end.
